@@ -696,6 +696,103 @@ pub fn run_stress(focus: &'static str, seed: u64, index: u64, args: &Args) -> Ca
     CaseOut { findings, counts, signature, nontrivial: all_done.is_ok() && total_ops > 100, sample }
 }
 
+// ------------------------------------------------------------------------------------------------ bare workload (sanitizers, Miri)
+
+/// The same kind of mixed concurrent workload, but with NO harness hooks installed and no shared harness state
+/// on the hot path (no stamps, no recorder): the sanitizer / interpreter is the oracle here, so the monitor must
+/// not add happens-before edges of its own. Only value sanity is checked (a returned token belongs to its key,
+/// no acknowledgement resolves to Pending, every acknowledgement resolves).
+pub fn run_bare(focus: &'static str, seed: u64, index: u64, args: &Args) -> CaseOut {
+    let mut rng = rt::rng_for(seed, index, 0xBA);
+    let threads = args.u64("threads", 4) as usize;
+    let ops = args.u64("ops", 200);
+    let keys = args.u64("keys", 3);
+    let miri = args.u64("miri", 0) == 1;
+    let sutcfg = SutCfg { counters: 16, capacity: 4, max_weight: if rng.chance(1, 2) { 120 } else { 100_000 }, shards: 2, cmd_buf: if miri { 4 } else { *rng.pick(&[1usize, 2, 8]) }, pool: 1,
+        buf: if miri { 2 } else { *rng.pick(&[1usize, 2]) }, tick: Duration::from_millis(if miri { 5 } else { 1 }), weight_mode: WeightMode::Custom,
+        hash_mode: if rng.chance(1, 3) { HashMode::Constant } else { HashMode::Default }, start_ns: rt::START_NS };
+    let case = J::obj().with("engine", J::s("conc")).with("scenario", J::s("bare")).with("focus", J::s(focus)).with("seed", J::Int(seed as i128))
+        .with("index", J::Int(index as i128)).with("threads", J::u(threads)).with("ops_per_thread", J::Int(ops as i128)).with("config", sutcfg.to_json());
+    let mut counts = Counts::default();
+    let mut findings = Vec::new();
+    let (cache, clock) = build_cache(&sutcfg);
+    let max_polls: u64 = if miri { 20_000 } else { 200_000_000 };
+    let mut handles = Vec::new();
+    for t in 0..threads {
+        let cache = cache.clone();
+        let clock = clock.clone();
+        let mut rng = rt::rng_for(seed, index, 600 + t as u64);
+        handles.push(thread::spawn(move || {
+            let me = t as u64 + 1;
+            let mut problems: Vec<String> = Vec::new();
+            let mut counter = 0u64;
+            let mut reads = 0u64;
+            let mut writes = 0u64;
+            let waker = rt::CountingWaker::new();
+            for n in 0..ops {
+                let key = rng.range(1, keys);
+                counter += 1;
+                if rng.chance(2, 5) {
+                    if let Some(value) = read(&cache, (n % 7) as usize, key) { if token_key(value) != key { problems.push(format!("foreign value {:#x} for key {}", value, key)); } }
+                    reads += 1;
+                } else {
+                    let value = token(key, me, counter);
+                    let ttl = Duration::from_nanos(rng.range(0, 2 * NS));
+                    let op = match rng.below(8) {
+                        0 => WriteOp::Put { key, value }, 1 => WriteOp::PutTtl { key, value, ttl }, 2 => WriteOp::PutWTtl { key, value, weight: rng.range(25, 60) as i64, ttl },
+                        3 => WriteOp::Upsert { key, value: Some(value), weight: None, ttl: Some(ttl), remove_ttl: false },
+                        4 => WriteOp::Upsert { key, value: Some(value), weight: Some(rng.range(25, 50) as i64), ttl: None, remove_ttl: false },
+                        5 => WriteOp::Upsert { key, value: Some(value), weight: Some(rng.range(30, 50) as i64), ttl: None, remove_ttl: true },
+                        _ => WriteOp::Delete { key },
+                    };
+                    writes += 1;
+                    match issue(&cache, &op) {
+                        Issued::Ack(ack, _) => {
+                            // an executor that polls until ready (yielding in between)
+                            let mut polls = 0u64;
+                            loop {
+                                match rt::poll_once(ack.handle(), &waker) {
+                                    Poll::Ready(CommandStatus::Pending) => { problems.push("ready-pending".into()); break; }
+                                    Poll::Ready(_) => break,
+                                    Poll::Pending => {}
+                                }
+                                polls += 1;
+                                if polls > max_polls { problems.push("acknowledgement-never-resolved".into()); break; }
+                                thread::yield_now();
+                            }
+                        }
+                        Issued::SendError(e) => problems.push(format!("send error while running: {}", e)),
+                        Issued::Panicked(m) => problems.push(format!("panic in caller: {}", m)),
+                    }
+                }
+                if t == 0 && n % 8 == 7 { clock.advance(NS / 2); }
+            }
+            (problems, reads, writes)
+        }));
+    }
+    for handle in handles {
+        match handle.join() {
+            Ok((problems, reads, writes)) => {
+                counts.add("bare_reads", reads); counts.add("bare_writes", writes);
+                for p in problems {
+                    let (props, sig): (Vec<&'static str>, String) = if p.starts_with("foreign") { (vec!["C02"], "C02/foreign-value/bare".into()) }
+                        else if p.starts_with("ready-pending") { (vec!["C12"], "C12/ready-pending".into()) }
+                        else if p.starts_with("acknowledgement") { (vec!["C18", "C12"], "C18/acknowledgement-never-resolved/bare".into()) }
+                        else if p.starts_with("panic") { (vec!["C17"], "C17/panic-in-caller/bare".into()) } else { (vec!["C13"], "C13/send-error-while-running/bare".into()) };
+                    fail(&mut findings, &props, sig, p, case.clone());
+                }
+            }
+            Err(_) => fail(&mut findings, &["C17"], "C17/client-thread-died/bare".into(), "a client thread panicked".into(), case.clone()),
+        }
+    }
+    cache.shutdown();
+    for v in 0..7 { if read(&cache, v, 1).is_some() { fail(&mut findings, &["C13"], "C13/api-works-after-shutdown/bare".into(), "a read returned a value after shutdown".into(), case.clone()); } }
+    drop(cache);
+    counts.inc("cases");
+    let signature = fnv_step(fnv_step(0xBA, seed), index);
+    CaseOut { findings, counts, signature, nontrivial: true, sample: case }
+}
+
 /// Number of distinct (site a on thread x) -> (site b on thread y != x) adjacencies in the trace: a measure of
 /// how many different cross-thread orderings of critical sections the run produced.
 fn lock_site_pairs(trace: &[(u64, u64, Site)]) -> usize {
